@@ -907,6 +907,13 @@ class SgzReader(object):
                     values = np.frombuffer(buffer, dtype=np.int32)
                     self.variant_headers[k] = values[self.mask] if use_mask else values
 
+    def _load_variant_headers(self, include_padding, tracefields=None):
+        # Header arrays of unstructured files are held in one padding mode at a time:
+        # reload them if a previous call left them in the other mode
+        if not self.structured and self.include_padding not in (None, include_padding):
+            self.clear_variant_headers()
+        self.read_variant_headers(include_padding=include_padding, tracefields=tracefields)
+
     def get_tracefield_1d(self, tracefield):
         """Efficiently provides all trace header values for a given trace header field
 
@@ -920,7 +927,7 @@ class SgzReader(object):
         -------
         header_array : numpy.ndarray of int32, shape (tracecount)
         """
-        self.read_variant_headers(include_padding=True, tracefields=[segyio.tracefield.TraceField(tracefield)])
+        self._load_variant_headers(True, tracefields=[segyio.tracefield.TraceField(tracefield)])
         if tracefield not in self.variant_headers:
             # A field with the same value in every trace is kept in the header template, not as an array
             values = np.full(self.header_entry_length_bytes // 4, self.segy_traceheader_template[tracefield], dtype=np.int32)
@@ -975,7 +982,7 @@ class SgzReader(object):
         for k, v in header.items():
             if isinstance(v, FileOffset):
                 if load_all_headers or not self.structured:
-                    self.read_variant_headers()
+                    self._load_variant_headers(False)
                     header[k] = self.variant_headers[k][index]
                 else:
                     buf = self.file.read_range(self.file, v + 4*index, 4)  # A 32-bit int is 4 bytes
